@@ -393,26 +393,52 @@ func r8pairs(c *core.Ctx, m *nasModel) {
 			best, bestN = l, len(ns)
 		}
 	}
-	okCanon := strings.HasPrefix(best, "for buffer.Len() > 0 {") && strings.Contains(best, "binary.Read(buffer, binary.BigEndian, &ieiN)") &&
-		strings.Contains(best, "if ieiN >= 0x80 {tmpIeiN=(ieiN & 0xf0) >> 4} else {tmpIeiN=ieiN}") && strings.HasSuffix(best, "switch tmpIeiN }")
-	if !okCanon && strings.HasPrefix(best, "for buffer.Len() > 0 { octet, ") && strings.Contains(best, ":= @helper(buffer); switch ") {
-		// the preamble is a helper: all decoders of the majority must use the same one, the switch must be on its
-		// second result, and the helper must read one octet r and return (r, r>=0x80 ? r>>4 : r)
-		tag := best[strings.Index(best, "octet, ")+7 : strings.Index(best, " := @helper")]
-		fnName := ""
-		same := true
-		for _, n := range loops[best] {
-			if fnName == "" {
-				fnName = m.Msgs[n].LoopFn
-			} else if m.Msgs[n].LoopFn != fnName {
-				same = false
+	// a loop form is canonical when it reads one IEI octet, normalises half-octet IEIs and switches on
+	// the result: spelled inline, or through a helper that does exactly that (each form is judged on
+	// its own: decoders may share a helper while their siblings keep the inline preamble)
+	canon := func(l string, ns []string) bool {
+		if strings.HasPrefix(l, "for buffer.Len() > 0 {") && strings.HasSuffix(l, "switch tmpIeiN }") {
+			// exactly: declarations, one read of the IEI octet, the normalisation, the switch - nothing else
+			// (an extra statement between them, e.g. an early break, changes which IEs are decoded)
+			body := strings.TrimSuffix(strings.TrimPrefix(l, "for buffer.Len() > 0 {"), "switch tmpIeiN }")
+			nRead, nNorm, extra := 0, 0, false
+			for _, st := range strings.Split(body, ";") {
+				st = strings.TrimSpace(st)
+				switch {
+				case st == "":
+				case strings.HasPrefix(st, "var "):
+				case st == "binary.Read(buffer, binary.BigEndian, &ieiN)":
+					nRead++
+				case st == "if ieiN >= 0x80 {tmpIeiN=(ieiN & 0xf0) >> 4} else {tmpIeiN=ieiN}":
+					nNorm++
+				default:
+					extra = true
+				}
+			}
+			if nRead == 1 && nNorm == 1 && !extra {
+				return true
 			}
 		}
-		okCanon = same && strings.HasSuffix(best, "switch "+tag+" }") && ieiHelperOK(c, fnName)
+		if strings.HasPrefix(l, "for buffer.Len() > 0 { octet, ") && strings.Contains(l, ":= @helper(buffer); switch ") {
+			// the preamble is a helper: the decoders of this form must use the same one, the switch must be on its
+			// second result, and the helper must read one octet r and return (r, r>=0x80 ? r>>4 : r)
+			tag := l[strings.Index(l, "octet, ")+7 : strings.Index(l, " := @helper")]
+			fnName := ""
+			same := true
+			for _, n := range ns {
+				if fnName == "" {
+					fnName = m.Msgs[n].LoopFn
+				} else if m.Msgs[n].LoopFn != fnName {
+					same = false
+				}
+			}
+			return same && strings.HasSuffix(l, "switch "+tag+" }") && ieiHelperOK(c, fnName)
+		}
+		return false
 	}
-	c.Check(okCanon, RL, "nasMessage:canonical-loop", token.NoPos, best, "the common decode loop is not `for buffer.Len() > 0 { read ieiN; normalise half-octet IEIs; switch }`: %s", best)
+	c.Check(canon(best, loops[best]), RL, "nasMessage:canonical-loop", token.NoPos, best, "the common decode loop is not `for buffer.Len() > 0 { read ieiN; normalise half-octet IEIs; switch }`: %s", best)
 	for l, ns := range loops {
-		if l == best {
+		if l == best || canon(l, ns) {
 			continue
 		}
 		sort.Strings(ns)
@@ -569,7 +595,7 @@ func ieiHelperOK(c *core.Ctx, name string) bool {
 		return false
 	}
 	src := r.Bits[0].Src
-	if !r.Bits.IsCopy(7, 0, src, 0) || !strings.Contains(src, "@read") {
+	if !r.Bits.IsCopy(7, 0, src, 0) || !(strings.Contains(src, "@read") || strings.Contains(src, "bytes.Buffer.ReadByte(")) {
 		return false
 	}
 	// t.i = r7 ? r.(4+i) : r.i for i < 4;  t.i = r7 ? 0 : r.i for i >= 4
